@@ -42,11 +42,10 @@ FromObs(ob) ==
                   !.succ = SetOfMask(o.succ), !.fail = SetOfMask(o.fail),
                   !.hst = [r \in Regions |-> [r |-> o.hst[r][1], ot |-> o.hst[r][2] = 1]],
                   !.sst = [r \in Regions |-> [r |-> o.sst[r][1], ot |-> o.sst[r][2] = 1]],
-                  !.activity = o.hist, !.sa = o.strA]
+                  !.activity = o.hist, !.sa = o.strA, !.lg = o.lg = 1]
 
 LastVec(m) == [s \in States |-> IF On(m) /\ m.tt[s] >= 1 /\ m.tt[s] <= Len(m.prev) THEN m.tt[s] ELSE 0]
 
-Has(f) == f \in Cfg.features
 
 \* machine record -> the fields the executor logs, in the executor's encoding; what an optional feature would
 \* report is blank in builds without it (C15: nothing else may depend on the feature set)
@@ -67,10 +66,11 @@ ToObs(m) ==
       hist |-> IF Has("STRUCTURE_REPORT") THEN m.activity ELSE [s \in States |-> 0],
       strA |-> IF Has("STRUCTURE_REPORT") THEN m.sa ELSE 0 - 1,
       isA |-> ActiveMask(m), isR |-> ResumeMask(m), isS |-> ResumeMask(m), sub |-> SubList(m),
-      pe |-> PendEMask(m), px |-> PendXMask(m), pc |-> PendCMask(m), on |-> On(m) ]
+      pe |-> PendEMask(m), px |-> PendXMask(m), pc |-> PendCMask(m), on |-> On(m),
+      lg |-> IF m.lg /\ HasLog THEN 1 ELSE 0 ]
 
 Fields == { "act", "res", "req", "rem", "oreq", "q", "tt", "last", "plans", "pex", "succ", "fail",
-            "hst", "sst", "tasks", "hist", "strA", "isA", "isR", "isS", "sub", "pe", "px", "pc", "on" }
+            "hst", "sst", "tasks", "hist", "strA", "isA", "isR", "isS", "sub", "pe", "px", "pc", "on", "lg" }
 
 Diff(n, tag, e, o) == IF e = o THEN TRUE ELSE PrintT(<<"DIFF", n, tag, e, o>>)
 Fail(n, tag, d)    == PrintT(<<"DIFF", n, tag, "monitor", d>>)
@@ -178,7 +178,7 @@ Monitors(n, pre, m, rec, entered, src) ==
     \* C05 : the update phases reach exactly the states that were active before the call
     /\ IF rec.a[1] = "update" /\ ~pre[1]
        THEN \A ph \in UpdateMethods :
-              Diff(n, "mon.reach", { s \in SetOfMask(pre[2].isA) : HasUser(s) },
+              Diff(n, "mon.reach", { s \in SetOfMask(pre[2].isA) : Overridden(s, ph) },
                    { ev[i][1] : i \in { j \in 1 .. Len(ev) : ev[j][2] = ph } })
        ELSE TRUE
     \* C02 / C04 : no requested prong, remain mark or orthogonal request bit survives a call (a stale one would steer
@@ -204,8 +204,8 @@ Monitors(n, pre, m, rec, entered, src) ==
                 Got(me) == { ev[i][1] : i \in { j \in 1 .. Len(ev) : ev[j][2] = me } }
             IN /\ Diff(n, "mon.load.act", saved.req, post.act)
                /\ Diff(n, "mon.load.res", saved.res, post.res)
-               /\ Diff(n, "mon.load.exit",  { s \in before \ after : HasUser(s) }, { s \in Got("exit")  : s \notin after })
-               /\ Diff(n, "mon.load.enter", { s \in after \ before : HasUser(s) }, { s \in Got("enter") : s \notin before })
+               /\ Diff(n, "mon.load.exit",  { s \in before \ after : Overridden(s, "exit") }, { s \in Got("exit")  : s \notin after })
+               /\ Diff(n, "mon.load.enter", { s \in after \ before : Overridden(s, "enter") }, { s \in Got("enter") : s \notin before })
        ELSE TRUE
     \* C09 : replaying the authority's previousTransitions() on the replica reproduces its configuration
     /\ IF rec.a[1] = "replay" /\ ~src[1][1]
@@ -229,6 +229,12 @@ CheckRecord(n, pre, m, rec, entered, src) ==
     /\ CheckEvents(n, m.ev, rec.ev)
     /\ Diff(n, "draws", m.draws, rec.draws)
     /\ Diff(n, "plog", IF Has("PLANS") THEN m.plog ELSE <<>>, rec.plog)
+    \* C16 : what the attached logger was told, by kind and as one interleaved sequence
+    /\ Diff(n, "log.methods", SelectSeq(m.log, LAMBDA r : r[1] = "m"), SelectSeq(rec.log, LAMBDA r : r[1] = "m"))
+    /\ Diff(n, "log.requests", SelectSeq(m.log, LAMBDA r : r[1] \in {"t", "cp"}), SelectSeq(rec.log, LAMBDA r : r[1] \in {"t", "cp"}))
+    /\ Diff(n, "log.statuses", SelectSeq(m.log, LAMBDA r : r[1] \in {"ts", "ps"}), SelectSeq(rec.log, LAMBDA r : r[1] \in {"ts", "ps"}))
+    /\ Diff(n, "log.resolutions", SelectSeq(m.log, LAMBDA r : r[1] \in {"sel", "ut", "rn"}), SelectSeq(rec.log, LAMBDA r : r[1] \in {"sel", "ut", "rn"}))
+    /\ Diff(n, "log.order", m.log, rec.log)
     /\ IF rec.a[1] = "save" THEN Diff(n, "buf", Encode(m), rec.buf) ELSE TRUE
     /\ IF rec.a[1] \in {"replay", "replayenter"} THEN Diff(n, "ret", IF m.ok THEN 1 ELSE 0, rec.ret) ELSE TRUE
     /\ Diff(n, "badThis", <<>>, rec.badThis)
@@ -246,6 +252,7 @@ Agrees(m, rec) ==
     /\ m.ev = rec.ev
     /\ m.draws = rec.draws
     /\ (IF Has("PLANS") THEN m.plog ELSE <<>>) = rec.plog
+    /\ m.log = rec.log
     /\ rec.a[1] = "del" \/ (LET e == ToObs(m) IN (\A f \in Fields : e[f] = rec.post[f]) /\ e.prev = rec.post.prev)
 
 PostOf(rec) == IF rec.a[1] = "del" THEN BlankObs ELSE <<FALSE, rec.post>>
@@ -258,7 +265,7 @@ TraceNext ==
            pre == IF rec0.a[1] = "copy" THEN obs[rec0.a[2]] ELSE obs[rec0.i]
            m   == Step(FromObs(pre), rec0.a, rec0.sc)
            \* a quiet record (allocation measurement) carries no callback log: judge the rest against the expected one
-           rec == IF rec0.quiet THEN [rec0 EXCEPT !.ev = m.ev, !.plog = IF Has("PLANS") THEN m.plog ELSE <<>>] ELSE rec0
+           rec == IF rec0.quiet THEN [rec0 EXCEPT !.ev = m.ev, !.plog = IF Has("PLANS") THEN m.plog ELSE <<>>, !.log = m.log] ELSE rec0
            \* where an open finding's deviation switch mattered, the intended behaviour is acceptable too
            mI  == Step([FromObs(pre) EXCEPT !.dev = {}], rec.a, rec.sc)
            e0  == IF rec.a[1] = "new" THEN {} ELSE IF rec.a[1] = "copy" THEN ent[rec.a[2]] ELSE ent[rec.i]
